@@ -54,7 +54,7 @@ def run_kernel_prop(pid, tier, seed, lean_targets, audit, prefixes, proofs_scan,
     results.update(std_streams(rng, tier, pid, kinds))
     bad = apply_oracle(results, oracle) if oracle else []
     if extra:
-        more_results, more_bad = extra(c, rng, tier)
+        more_results, more_bad = extra(c, rng, tier, results)
         results.update(more_results)
         bad += more_bad
     c.cov["samples"] = sample_of(results, 2)
